@@ -1,6 +1,7 @@
 """Counter-model decoding: solver values (z3 or cvc5, as S-expressions) -> Python values."""
 import re
 
+from .types import PATH
 from .types import INT, BOOL, STR, ANY, NONE, OptT, TupT, SeqT, SetT, DictT, ObjT
 
 
@@ -90,7 +91,7 @@ def decode(x, t):
         if x == 'false':
             return False
         raise Undecodable('bool %r' % (x,))
-    if t == STR:
+    if t == STR or t == PATH:
         if isinstance(x, tuple) and x[0] == 'str':
             return unescape(x[1])
         if isinstance(x, list):
